@@ -63,10 +63,10 @@ func checkKeys[E int32 | uint32](rep *vreport, label string, vals []E) {
 		rep.cases++
 		k := tb.rowKey(row)
 		if k2 := tb.rowKey(append([]E{}, row...)); k2 != k {
-			rep.fail("C01+C09+C10/table.rowKey/function-of-contents", fmt.Sprintf("%s %v", label, row), "two calls on equal rows give different keys")
+			rep.fail("C01+C09+C10+C19/table.rowKey/function-of-contents", fmt.Sprintf("%s %v", label, row), "two calls on equal rows give different keys")
 		}
 		if other, ok := seen[k]; ok {
-			rep.fail("C01+C09+C10/table.rowKey/injective", fmt.Sprintf("%s %v and %v", label, other, row), fmt.Sprintf("distinct rows share the key %q: AddRow would store one row for both", k))
+			rep.fail("C01+C09+C10+C19/table.rowKey/injective", fmt.Sprintf("%s %v and %v", label, other, row), fmt.Sprintf("distinct rows share the key %q: AddRow would store one row for both", k))
 		}
 		seen[k] = row
 	}
@@ -92,7 +92,7 @@ func checkRoundTrip[E int32 | uint32](rep *vreport, label string, rnd *rand.Rand
 		desc := fmt.Sprintf("%s rows=%v at %v", label, rows, idx)
 		hdr := cur + 1
 		if len(arr) < hdr {
-			rep.fail("C01+C09+C10/table.Array/decodes-to-the-rows-added", desc, "array shorter than the index vector")
+			rep.fail("C01+C09+C10+C19/table.Array/decodes-to-the-rows-added", desc, "array shorter than the index vector")
 			continue
 		}
 		at := map[int][]E{}
@@ -104,17 +104,17 @@ func checkRoundTrip[E int32 | uint32](rep *vreport, label string, rnd *rand.Rand
 			row, has := at[i]
 			if !has {
 				if off != -1 {
-					rep.fail("C01+C09+C10/table.Array/decodes-to-the-rows-added", desc, fmt.Sprintf("index %d has no row but offset %d", i, off))
+					rep.fail("C01+C09+C10+C19/table.Array/decodes-to-the-rows-added", desc, fmt.Sprintf("index %d has no row but offset %d", i, off))
 				}
 				continue
 			}
 			if off < hdr || off >= len(arr) || off+1+int(arr[off]) > len(arr) {
-				rep.fail("C01+C09+C10/table.Array/decodes-to-the-rows-added", desc, fmt.Sprintf("offset %d of index %d is outside the array", off, i))
+				rep.fail("C01+C09+C10+C19/table.Array/decodes-to-the-rows-added", desc, fmt.Sprintf("offset %d of index %d is outside the array", off, i))
 				continue
 			}
 			got := arr[off+1 : off+1+int(arr[off])]
 			if fmt.Sprint(got) != fmt.Sprint(row) {
-				rep.fail("C01+C09+C10/table.Array/decodes-to-the-rows-added", desc, fmt.Sprintf("index %d decodes to %v, the row added was %v", i, got, row))
+				rep.fail("C01+C09+C10+C19/table.Array/decodes-to-the-rows-added", desc, fmt.Sprintf("index %d decodes to %v, the row added was %v", i, got, row))
 			}
 		}
 	}
